@@ -28,6 +28,8 @@ BODIES = {
     6: "from a import *\nx = K\ny = v\n",
     7: "def broken(:\n    pass\n",
     8: "from b import *\ny = v\n",
+    9: "import pkg.q.b\nw = pkg.q.b.K()\n",
+    10: "\n\nclass K:\n    def g(self):\n        return 2\n\n    def h(self):\n        return 3\nv = K()\n",
 }
 
 INVARIANTS = ["FilesCoherent", "SourceCoherent", "InferNoStalePositive", "ImportsCoherent", "CachedIsWatched"]
@@ -35,8 +37,18 @@ INVARIANTS = ["FilesCoherent", "SourceCoherent", "InferNoStalePositive", "Import
 
 def constants(max_ops, external=True, two_packages=False, world=None):
     w = {None: ("MCInitTreesC", "MCUniverse"), "two": ("MCInitTreesC2", "MCUniverse2"),
-         "topackage": ("MCInitTreesC3", "MCUniverse3"), "pair": ("MCInitTreesC4", "MCUniverse4")}[
+         "topackage": ("MCInitTreesC3", "MCUniverse3"), "pair": ("MCInitTreesC4", "MCUniverse4"),
+         "nested": ("MCInitTreesC5", "MCUniverse5")}[
              "two" if two_packages else world]
+    if world == "nested":
+        return {
+            "DirNames": {"pkg", "q"}, "FileNames": {"a", "b", "i"}, "MaxDepth": 3,
+            "MaxOps": max_ops, "Contents": {4, 10},
+            "ImportsOf": tlc.Sub("MCImports"),
+            "InitTreesC": tlc.Sub(w[0]),
+            "Universe": tlc.Sub(w[1]), "AllowExternal": external,
+            "ForgetOnStructure": True, "Exclusive": tlc.Sub("MCNoExclusive"),
+        }
     return {
         "DirNames": {"pkg", "q", "A"}, "FileNames": {"a", "b", "i", "t"}, "MaxDepth": 2,
         "MaxOps": max_ops, "Contents": {1, 2},
@@ -92,7 +104,7 @@ def battery(project, autoimport=None):
     out["files"] = sorted(r.path for r in project.get_files())
     out["python_files"] = sorted(r.path for r in project.get_python_files())
     fm = {}
-    for name in ("a", "b", "pkg", "pkg.b", "pkg.a", "i", "q", "q.b"):
+    for name in ("a", "b", "pkg", "pkg.b", "pkg.a", "i", "q", "q.b", "pkg.q", "pkg.q.b"):
         m = project.find_module(name)
         fm[name] = m.path if m is not None else None
     out["find_module"] = fm
@@ -316,6 +328,7 @@ def main(tier):
             ("two-packages-q-ignored-3ops", constants(4, external=False, two_packages=True), "export-ignored", None),
             ("module-to-package-4ops", constants(5, external=False, world="topackage"), "export", None),
             ("two-modules-requery-4ops", constants(5, external=True, world="pair"), "export", None),
+            ("nested-packages-4ops", constants(5, external=True, world="nested"), "export", None),
             ("deep-view-4ops", constants(5), "deep", None),
             ("simulation-8ops", constants(9), "sim", 2000 if tier == "quick" else 30000)]
     if tier == "thorough":
